@@ -188,22 +188,14 @@ def sampleVia (k : CallKind) (outGiven : Bool) (e : A) : A :=
 
 end Sampling
 
-/-- `_Interpolator.__call__` turns a mesh grid into a ragged array with
-`np.asarray(x, dtype=object)`.  With the installed NumPy this succeeds unless the sparse mesh
-vectors `(N₀,1,…), (1,N₁,…), …` agree in their leading dimension (`N₀ = 1`) and differ later
-(some `N_j ≠ 1`): then NumPy tries to build a regular array and raises `ValueError`
-("could not broadcast input array").  `lens` are the numbers of points per axis. -/
-def meshInputOk : List Nat → Bool
-  | n0 :: rest => !(n0 == 1 && rest.any (· != 1))
-  | [] => true
-
 /-! ### Value dtypes (`_Interpolator._find_indices`)
 
-Before the node search the evaluation points are cast to the dtype of the VALUES when NumPy
-considers that cast safe (`xi.astype(self.values.dtype, casting='safe')`), otherwise to
-`float`.  For real points the cast is the identity for numeric value types; the table records
-for which value-dtype classes the cast of `float64` points succeeds and what the subsequent
-arithmetic on the points (`xi - cvec[idcs]`) does. -/
+Before the node search the evaluation points are cast to the dtype of the VALUES when that
+dtype is numeric and NumPy considers the cast safe
+(`xi.astype(self.values.dtype, casting='safe')`), otherwise to `float` (with a warning).  For
+real points the cast is the identity.  The table records, per value-dtype class, whether the
+cast of `float64` points is performed and what the subsequent arithmetic on the points
+(`xi - cvec[idcs]`) does. -/
 
 inductive VKind
   | float64 | float32 | complex128 | complex64 | int
@@ -220,10 +212,27 @@ def castSafe : VKind → Bool
   | .float64 | .complex128 | .object | .strWide => true
   | .float32 | .complex64 | .int | .strNarrow => false
 
-/-- Outcome of `_find_indices` on `float64` points: after a safe cast to a string dtype the
-points are strings and the normalised distance raises a `TypeError` (`UFuncTypeError`). -/
-def findIndicesOutcome (vk : VKind) : CallOutcome :=
-  if castSafe vk then (if vk = .strWide then .typeError else .ok) else .ok
+/-- `np.issubdtype(values.dtype, np.number)`. -/
+def isNumeric : VKind → Bool
+  | .float64 | .float32 | .complex128 | .complex64 | .int => true
+  | .strNarrow | .strWide | .object => false
 
+/-- Arithmetic with coordinates is defined on points of this dtype class. -/
+def arithmeticOk : VKind → Bool
+  | .strNarrow | .strWide => false
+  | _ => true
+
+/-- Do the points take the value dtype (no fallback to `float`, no warning)? -/
+def pointsTakeValueDtype (vk : VKind) : Bool := isNumeric vk && castSafe vk
+
+/-- Outcome of `_find_indices` on `float64` points. -/
+def findIndicesOutcome (vk : VKind) : CallOutcome :=
+  if pointsTakeValueDtype vk && !arithmeticOk vk then .typeError else .ok
+
+/-- The code BEFORE the repair of finding C15-F3 (kept to document the sensitivity): the cast
+was attempted for every value dtype, so `float64` points became strings for wide string
+values and the normalised distance raised a `TypeError`. -/
+def findIndicesOutcomeOld (vk : VKind) : CallOutcome :=
+  if castSafe vk && !arithmeticOk vk then .typeError else .ok
 
 end OdlModel.Interp
